@@ -74,7 +74,8 @@ class Sim:
         self.switch_p = switch_p
         # line-level pre-emption logs one event per pre-empted line: allow more of them
         self.max_events = max_events * (10 if (trace_files and line_p > 0) else 1)
-        self.max_time = max_time
+        # each pre-empted line may be charged virtual time: the clock cap must not fire first
+        self.max_time = max_time * (1000 if (trace_files and line_p > 0) else 1)
         self.trace_files = tuple(trace_files or ())
         self.line_p = line_p
         self.line_cost = line_cost        # virtual seconds a line-level pre-emption may last
